@@ -10,6 +10,7 @@ With no trimming in force the output must equal the reference interpreter's text
 from __future__ import annotations
 
 import itertools
+import copy
 import random
 from typing import Any
 
@@ -208,6 +209,17 @@ def suppression_family(ctx: Ctx, spec: dict[str, Any]) -> None:
         for b in B:
             for e in elses:
                 inners.append(M.For("i", items, b, orelse=e))
+    # loops whose bodies write nothing but DO something in every iteration, left early or skipped
+    # in part by break / continue: what later iterations assign, capture and count still happens
+    for stop in (1, 2, 4):
+        for intr in (M.Continue(), M.Break()):
+            for tail in ([M.Assign("z", M.Filt(M.Var("i")))], [M.Incr("c1")],
+                         [M.Capture("cap1", [M.Out(M.Filt(M.Var("i")))])],
+                         [M.Text(" "), M.Assign("z", M.Filt(M.Var("i"))), M.Text("\n")]):
+                guard = M.If([(M.Cmp("==", M.Var("i"), M.Lit(stop)), [intr])], None)
+                inners.append(M.For("i", M.Var("four"), [guard, *tail]))
+                inners.append(M.For("i", M.Var("four"), [*tail, guard]))
+                inners.append(M.For("i", M.Var("four"), [M.For("j", M.Var("two"), [guard, *tail])]))
     for cond in (True, False):
         for b in B:
             for e in elses:
@@ -222,7 +234,7 @@ def suppression_family(ctx: Ctx, spec: dict[str, Any]) -> None:
             [M.Case(M.Lit("k"), [([M.Lit("k")], [inner])], None)],
             [M.If([(M.Truthy(M.Lit(True)), [M.If([(M.Truthy(M.Lit(True)), [inner])], None)])], None)],
         ]
-    data = {"none": [], "one": [1], "two": [1, 2], "v": "V"}
+    data = {"none": [], "one": [1], "two": [1, 2], "four": [1, 2, 3, 4], "v": "V"}
     n = 0
     for inner in inners:
         for body in outers(inner):
@@ -462,13 +474,121 @@ def translate_family(ctx: Ctx, spec: dict[str, Any]) -> None:
         ctx.sample({"kind": "translate-family", "source": src, "output": out})
 
 
+def hooks_family(ctx: Ctx, spec: dict[str, Any]) -> None:
+    """(a) The documented `Environment.trim()` hook is the ONE place whitespace control is
+    applied to template text: an override that only observes (and delegates) sees every piece of
+    literal text that is rendered, and the output equals the stock environment's.  (b) Optional
+    block tags that write markup of their own (tablerow) inside blank control-flow blocks:
+    suppression may remove whitespace only."""
+    from liquid2 import DictLoader
+    from liquid2 import Environment
+    from liquid2 import WhitespaceControl
+    from liquid2.builtin.content import ContentNode
+    from liquid2.shopify import Environment as ShopifyEnvironment
+
+    from ..gen.programs import Gen
+    from ..gen.programs import Profile
+
+    rng = random.Random(f"{spec['seed']}:hooks:{spec['i']}")
+    WC = {"+": WhitespaceControl.PLUS, "-": WhitespaceControl.MINUS, "~": WhitespaceControl.TILDE}
+    seen: list[str] = []
+    rendered = [0]
+    orig = ContentNode.render_to_output
+
+    missed = [0]
+
+    def counting(self, context, buffer):  # noqa: ANN001, ANN202
+        # (the hook is also used when raw tags are parsed: count what happens per text render)
+        rendered[0] += 1
+        before = len(seen)
+        try:
+            return orig(self, context, buffer)
+        finally:
+            if isinstance(context.env, ObservingEnv) and len(seen) == before:
+                missed[0] += 1
+
+    class ObservingEnv(Environment):
+        def trim(self, text, left_trim, right_trim):  # noqa: ANN001, ANN201
+            seen.append(text)
+            return super().trim(text, left_trim, right_trim)
+
+    src = None
+    ContentNode.render_to_output = counting  # type: ignore[method-assign]
+    try:
+        for j in range(spec["per"]):
+            g = Gen(random.Random(f"{spec['seed']}:hooks:{spec['i']}:{j}"), Profile(partials=False, text_ws=True, unicode_ws=True))
+            prog = g.program()
+            n = E.emit(prog, E.Layout(random.Random(1))).n_positions
+            A = [rng.choice(E.MARKERS) if rng.random() < 0.35 else "" for _ in range(n)]
+            em = E.emit(prog, E.Layout(random.Random(1), markers=A))
+            src = em.source
+            data = g.data()
+            trim = rng.choice("+-~")
+            try:
+                stock = Environment(loader=DictLoader(em.partials), default_trim=WC[trim]).from_string(src).render(**copy.deepcopy(data))
+            except Exception:  # noqa: BLE001
+                ctx.count("hooks_programs_skipped")
+                continue
+            del seen[:]
+            rendered[0] = 0
+            missed[0] = 0
+            try:
+                out = ObservingEnv(loader=DictLoader(em.partials), default_trim=WC[trim]).from_string(src).render(**copy.deepcopy(data))
+            except Exception as e:  # noqa: BLE001
+                out = f"<{type(e).__name__}>"
+            ctx.ev()
+            ctx.count("trim_hook_programs")
+            ctx.count("trim_hook_text_renders", rendered[0])
+            ctx.nt("trimhook", src, trim)
+            if out != stock or missed[0]:
+                ctx.violation(
+                    "ws-control:trim-hook-not-consulted-for-every-text",
+                    f"{rendered[0]} pieces of literal text were rendered, {missed[0]} of them without a call to the Environment.trim() override"
+                    + ("" if out == stock else f"; output {out!r} != stock {stock!r}"),
+                    {"source": src, "partials": em.partials, "data": data, "cfg": [trim, True, False], "base": ["ok", stock],
+                     "exact": True, "hook": "observing-trim"})
+                break
+    finally:
+        ContentNode.render_to_output = orig  # type: ignore[method-assign]
+
+    # (b) tablerow inside blank control-flow blocks, suppression on vs off
+    bodies = ["", " ", "\n  ", "{% assign z = x %}", "{# c #}", " {% capture q %}{{ x }}{% endcapture %} ", "{% if false %}a{% endif %}",
+              "{{ x }}", " t "]
+    wrappers = ["{% if true %}W{% endif %}", "{% unless false %}\n W \n{% endunless %}", "{% for i in (1..2) %}W{% endfor %}",
+                "{% case 1 %}{% when 1 %} W {% endcase %}", "{% if true %}{% if true %}W{% endif %}{% endif %}", "W"]
+    for wrap in wrappers:
+        for body in bodies:
+            for cols in ("", " cols: 2"):
+                tpl = "[" + wrap.replace("W", "{% tablerow x in rows" + cols + " %}" + body + "{% endtablerow %}") + "]"
+                outs = []
+                for sup in (True, False):
+                    class Env(ShopifyEnvironment):
+                        suppress_blank_control_flow_blocks = sup
+
+                    try:
+                        outs.append(("ok", Env().from_string(tpl).render(rows=[1, 2, 3])))
+                    except Exception as e:  # noqa: BLE001
+                        outs.append(("exc", type(e).__name__))
+                ctx.ev(2)
+                ctx.count("tablerow_suppression_pairs")
+                ctx.nt("tablerow-suppress", tpl)
+                if outs[0][0] != outs[1][0] or (outs[0][0] == "ok" and strip_ws(outs[0][1]) != strip_ws(outs[1][1])):
+                    ctx.violation("suppression:removes-output-of-optional-block-tag:tablerow",
+                                  f"suppression on: {outs[0]!r}; off: {outs[1]!r}",
+                                  {"source": tpl, "partials": {}, "data": {"rows": [1, 2, 3]}, "cfg": ["+", True, False],
+                                   "base": list(outs[1]), "shopify": True})
+    if src is not None:
+        ctx.sample({"kind": "hooks-family", "source": src})
+
+
 def shards(tier: str, seed: int) -> list[dict[str, Any]]:
     n = 16
     per = 60 if tier == "quick" else 350
     return [{"kind": "gen", "i": i, "n": n, "per": per} for i in range(n)] + [
         {"kind": "suppress", "i": i, "n": 2} for i in range(2)] + [
         {"kind": "lookalike", "i": i, "n": 2, "per": 400 if tier == "quick" else 8000} for i in range(2)] + [
-        {"kind": "translate", "i": i, "n": 2, "per": 60 if tier == "quick" else 1200} for i in range(2)]
+        {"kind": "translate", "i": i, "n": 2, "per": 60 if tier == "quick" else 1200} for i in range(2)] + [
+        {"kind": "hooks", "i": i, "n": 2, "per": 150 if tier == "quick" else 3000} for i in range(2)]
 
 
 def floors(tier: str) -> dict[str, int]:
@@ -477,7 +597,8 @@ def floors(tier: str) -> dict[str, int]:
     kp = 1 if tier == "quick" else 5
     return {"marker_assignments": 20000 * k, "programs_exhaustive": 100 * kp, "suppression_pairs": 300 * kp,
             "verbatim_checks": 100 * k, "suppression_family_renders": 5000, "exact_trim_checks": 5000 * k,
-            "lookalike_renders": 3000 * k, "translate_marker_assignments": 1500 * k}
+            "lookalike_renders": 3000 * k, "translate_marker_assignments": 1500 * k, "trim_hook_programs": 200 * kp, "trim_hook_text_renders": 1000 * kp,
+            "tablerow_suppression_pairs": 200}
 
 
 def run_shard(spec: dict[str, Any], ctx: Ctx) -> None:
@@ -490,13 +611,34 @@ def run_shard(spec: dict[str, Any], ctx: Ctx) -> None:
     if spec["kind"] == "translate":
         translate_family(ctx, spec)
         return
+    if spec["kind"] == "hooks":
+        hooks_family(ctx, spec)
+        return
+    from ..core import CaseBudget
+    from ..core import case_budget
+
     for j in range(spec["per"]):
-        run_program(ctx, f"{spec['seed']}:{spec['i']}", j, spec["tier"])
+        try:
+            with case_budget(180):
+                run_program(ctx, f"{spec['seed']}:{spec['i']}", j, spec["tier"])
+        except CaseBudget:
+            ctx.count("cases_skipped:wall-clock-watchdog")
 
 
 def replay(wit: dict[str, Any], ctx: Ctx) -> None:
     cfg = tuple(wit["cfg"])
     data = dict(wit.get("data") or {})
+    if wit.get("shopify"):
+        from liquid2.shopify import Environment as ShopifyEnvironment
+
+        class Env(ShopifyEnvironment):
+            suppress_blank_control_flow_blocks = True
+
+        got = ("ok", Env().from_string(wit["source"]).render(**data))
+        print("replay C18: suppression on:", got, " off:", wit["base"])
+        if strip_ws(got[1]) != strip_ws(wit["base"][1]):
+            ctx.violation("replayed", f"off {wit['base']!r} on {got!r}", wit)
+        return
     if "catalog" in wit:
         data["translations"] = Catalog(wit["catalog"])
     got = c01.real_render(cfg, wit["source"], wit.get("partials") or {}, data)
